@@ -19,12 +19,15 @@ def sh(cmd, **kw):
     return subprocess.run(cmd, capture_output=True, text=True, **kw)
 
 
+ALSO = []
+
+
 def one(name):
     d = os.path.join(SEEDED, name)
     meta = json.load(open(os.path.join(d, "meta.json")))
     prop = meta["property"]
     prev = meta.get("checks_quick", {})
-    checks = [prop] + sorted(c for c, v in prev.items() if v == "VIOLATION" and c != prop)
+    checks = [prop] + sorted(set(c for c, v in prev.items() if v == "VIOLATION" and c != prop) | set(c for c in ALSO if c != prop))
     t = tempfile.mkdtemp(prefix="seed-", dir="/dev/shm")
     try:
         sh(["git", "-C", "/repo", "archive", "--format=tar", "HEAD", "-o", t + ".tar"])
@@ -52,8 +55,10 @@ def one(name):
 def main():
     ap = argparse.ArgumentParser()
     ap.add_argument("-P", type=int, default=4)
+    ap.add_argument("--also", default="", help="comma separated checks to run in addition (for the given ids)")
     ap.add_argument("ids", nargs="*")
     a = ap.parse_args()
+    ALSO.extend(c for c in a.also.split(",") if c)
     names = a.ids or sorted(os.listdir(SEEDED))
     names = [n for n in names if os.path.isdir(os.path.join(SEEDED, n))]
     lost, changed = [], []
